@@ -16,6 +16,7 @@ impl Rng {
     pub fn range(&mut self, lo: usize, hi: usize) -> usize { lo + self.below(hi - lo + 1) }
     pub fn chance(&mut self, num: usize, den: usize) -> bool { self.below(den) < num }
     pub fn pick<'a, T>(&mut self, v: &'a [T]) -> &'a T { &v[self.below(v.len())] }
+    pub fn pick_str<'a>(&mut self, v: &[&'a str]) -> &'a str { v[self.below(v.len())] }
     pub fn fork(&mut self) -> Rng { Rng(self.next()) }
 }
 
